@@ -30,7 +30,10 @@ NoOut == [fields |-> <<>>, hdr |-> FALSE, lev |-> <<>>]
 
 \* kept lists: ordered, duplicate free, over the known names and one unknown name
 Cand == Rng(Names) \cup {"zz"}
-KeptLists == {<<>>} \cup {s \in UNION {[1..n -> Cand] : n \in 1..2} : \A i, j \in DOMAIN s : i # j => s[i] # s[j]}
+\* ... plus every field kept, in header order and reversed (a kept list as long as the field list is where a "keep everything"
+\* short cut would sit)
+KeptLists == {<<>>, Names, Reverse(Names)}
+             \cup {s \in UNION {[1..n -> Cand] : n \in 1..2} : \A i, j \in DOMAIN s : i # j => s[i] # s[j]}
 
 -----------------------------------------------------------------------------
 (* Requirement *)
